@@ -153,5 +153,5 @@ def s_case(draw, max_len=5, max_steps=40):
 
 def parts(tier):
     if tier == 'quick':
-        return [Part('stops', check, strategy=s_case(), examples=100, shards=4)]
+        return [Part('stops', check, strategy=s_case(), examples=220, shards=4)]
     return [Part('stops', check, strategy=s_case(8, 120), examples=2000, shards=16)]
